@@ -132,6 +132,20 @@ static void janet_fiber_grow(JanetFiber *fiber, int32_t needed) {
     janet_fiber_setcapacity(fiber, cap);
 }
 
+/* Make sure the fiber's stack can hold a frame that ends at slot index `nextstacktop`. The caller
+ * computes that index in 64 bits: slot counts come from function definitions, which can be loaded
+ * from images or assembled and may be anything up to INT32_MAX. */
+static void janet_fiber_frame_room(JanetFiber *fiber, int64_t nextstacktop) {
+    if (nextstacktop > INT32_MAX) janet_panic("stack overflow");
+    if (fiber->capacity < nextstacktop) {
+        janet_fiber_grow(fiber, (int32_t) nextstacktop);
+#ifdef JANET_DEBUG
+    } else {
+        janet_fiber_refresh_memory(fiber);
+#endif
+    }
+}
+
 /* Push a value on the next stack frame */
 void janet_fiber_push(JanetFiber *fiber, Janet x) {
     if (fiber->stacktop == INT32_MAX) janet_panic("stack overflow");
@@ -195,20 +209,15 @@ int janet_fiber_funcframe(JanetFiber *fiber, JanetFunction *func) {
     int32_t oldtop = fiber->stacktop;
     int32_t oldframe = fiber->frame;
     int32_t nextframe = fiber->stackstart;
-    int32_t nextstacktop = nextframe + func->def->slotcount + JANET_FRAME_SIZE;
+    int64_t nextstacktop64 = (int64_t) nextframe + func->def->slotcount + JANET_FRAME_SIZE;
     int32_t next_arity = fiber->stacktop - fiber->stackstart;
 
     /* Check strict arity before messing with state */
     if (next_arity < func->def->min_arity) return 1;
     if (next_arity > func->def->max_arity) return 1;
 
-    if (fiber->capacity < nextstacktop) {
-        janet_fiber_setcapacity(fiber, 2 * nextstacktop);
-#ifdef JANET_DEBUG
-    } else {
-        janet_fiber_refresh_memory(fiber);
-#endif
-    }
+    janet_fiber_frame_room(fiber, nextstacktop64);
+    int32_t nextstacktop = (int32_t) nextstacktop64;
 
     /* Nil unset stack arguments (Needed for gc correctness) */
     for (i = fiber->stacktop; i < nextstacktop; ++i) {
@@ -329,8 +338,7 @@ void janet_env_maybe_detach(JanetFuncEnv *env) {
 /* Create a tail frame for a function */
 int janet_fiber_funcframe_tail(JanetFiber *fiber, JanetFunction *func) {
     int32_t i;
-    int32_t nextframetop = fiber->frame + func->def->slotcount;
-    int32_t nextstacktop = nextframetop + JANET_FRAME_SIZE;
+    int64_t nextstacktop64 = (int64_t) fiber->frame + func->def->slotcount + JANET_FRAME_SIZE;
     int32_t next_arity = fiber->stacktop - fiber->stackstart;
     int32_t stacksize;
 
@@ -338,13 +346,9 @@ int janet_fiber_funcframe_tail(JanetFiber *fiber, JanetFunction *func) {
     if (next_arity < func->def->min_arity) return 1;
     if (next_arity > func->def->max_arity) return 1;
 
-    if (fiber->capacity < nextstacktop) {
-        janet_fiber_setcapacity(fiber, 2 * nextstacktop);
-#ifdef JANET_DEBUG
-    } else {
-        janet_fiber_refresh_memory(fiber);
-#endif
-    }
+    janet_fiber_frame_room(fiber, nextstacktop64);
+    int32_t nextstacktop = (int32_t) nextstacktop64;
+    int32_t nextframetop = nextstacktop - JANET_FRAME_SIZE;
 
     /* Detach old function */
     if (NULL != janet_fiber_frame(fiber)->func)
@@ -402,15 +406,10 @@ void janet_fiber_cframe(JanetFiber *fiber, JanetCFunction cfun) {
 
     int32_t oldframe = fiber->frame;
     int32_t nextframe = fiber->stackstart;
-    int32_t nextstacktop = fiber->stacktop + JANET_FRAME_SIZE;
+    int64_t nextstacktop64 = (int64_t) fiber->stacktop + JANET_FRAME_SIZE;
 
-    if (fiber->capacity < nextstacktop) {
-        janet_fiber_setcapacity(fiber, 2 * nextstacktop);
-#ifdef JANET_DEBUG
-    } else {
-        janet_fiber_refresh_memory(fiber);
-#endif
-    }
+    janet_fiber_frame_room(fiber, nextstacktop64);
+    int32_t nextstacktop = (int32_t) nextstacktop64;
 
     /* Set the next frame */
     fiber->frame = nextframe;
